@@ -6,7 +6,7 @@ pub const KEYS: &[&str] = &["a", "b", "ab", "a1", "ké", "$$secret"];
 pub const PLAIN_KEYS: &[&str] = &["a", "b", "ab", "a1", "ké"];
 pub const VALUES: &[&str] = &["x", "7", "", "two words", "-3", "7 up", "é✓", "<Empty>", "41"];
 pub const PATTERNS: &[&str] = &["a*", "*b", "b", "", "*", "$$*", "*1", "k"];
-pub const INCS: &[i32] = &[1, -1, 5, 100];
+pub const INCS: &[i32] = &[1, -1, 5, 100, 0];
 
 #[derive(Clone, Debug, PartialEq)]
 pub struct Db {
